@@ -10,6 +10,8 @@
  *   abandon   pooled sorters with dispatched chunks destroyed without ever being iterated or written
  *   manyjobs  a sorter on a pool of 256 threads with 256 chunk jobs all in flight at once (each parked inside the merge callback)
  *             when the iterator is made: the iterator must wait for every one of them
+ *   failmerge a pooled sorter whose merge function gives up inside a chunk job while the caller keeps adding; the sorter is then
+ *             destroyed without being iterated (the failure of a chunk reaches the sorter from the result handler's thread)
  *   sortedge  pooled sorters iterated right after n adds, for a run of consecutive n longer than one spill period: for one of
  *             them the last add is the one that dispatches its batch (nothing buffered when the iterator is made)
  * Every scenario checks its functional result too (files read back completely, sorter output count).
@@ -65,6 +67,11 @@ static void *releaser(void *a) {
 	pthread_cond_broadcast(&park_c);
 	pthread_mutex_unlock(&park_m);
 	return NULL;
+}
+
+static void merge_giveup(void *clos, const uint8_t *k, size_t lk, const uint8_t *v0, size_t n0, const uint8_t *v1, size_t n1, uint8_t **out, size_t *nout) {
+	if (lk == 5 && !memcmp(k, "f0010", 5)) { usleep(5000); *out = NULL; *nout = 0; return; }	/* gives up after a while */
+	merge_cat(clos, k, lk, v0, n0, v1, n1, out, nout);
 }
 
 static void *writer_thread(void *a) {
@@ -222,6 +229,24 @@ int main(int argc, char **argv) {
 			if (round == 2) usleep(300000);
 			mtbl_sorter_destroy(&s);
 		}
+		mtbl_threadpool_destroy(&pool);
+	} else if (!strcmp(sc, "failmerge")) {
+		pool = mtbl_threadpool_init(1 + seed % 3);
+		struct mtbl_sorter_options *o = mtbl_sorter_options_init();
+		mtbl_sorter_options_set_max_memory(o, 80);		/* two entries make a chunk */
+		mtbl_sorter_options_set_temp_dir(o, dir);
+		mtbl_sorter_options_set_merge_func(o, merge_giveup, NULL);
+		mtbl_sorter_options_set_threadpool(o, pool);
+		struct mtbl_sorter *s = mtbl_sorter_init(o);
+		mtbl_sorter_options_destroy(&o);
+		for (int i = 0; i < 240; i++) {
+			char key[32]; uint8_t val[24];
+			snprintf(key, sizeof key, "f%04d", i / 2);
+			memset(val, i, sizeof val);
+			(void)mtbl_sorter_add(s, (uint8_t *)key, strlen(key), val, sizeof val);	/* may be refused once the failure is known */
+			if (i > 20) usleep(150 + (unsigned)((seed * 37 + (uint64_t)i * 11) % 200));
+		}
+		mtbl_sorter_destroy(&s);
 		mtbl_threadpool_destroy(&pool);
 	} else if (!strcmp(sc, "manyjobs")) {
 		int njobs = 256;
